@@ -75,8 +75,14 @@ def eager_cat_homogeneous(name, part_name, *parts):
     dim = 0
     white_vec = ops.cat(white_vecs, dim)
     prec_sqrt = ops.cat(prec_sqrts, dim)
-    inputs[name] = Bint[white_vec.shape[dim]]
-    int_inputs[name] = inputs[name]
+    # The concatenated dim is the leftmost one, also when part_name != name.
+    size = Bint[white_vec.shape[dim]]
+    inputs = OrderedDict(
+        [(name, size)] + [(k, v) for k, v in inputs.items() if k != name]
+    )
+    int_inputs = OrderedDict(
+        [(name, size)] + [(k, v) for k, v in int_inputs.items() if k != name]
+    )
     result = Gaussian(white_vec, prec_sqrt, inputs)
     if any(d is not None for d in discretes):
         for i, d in enumerate(discretes):
